@@ -90,7 +90,17 @@ def job_inverse(n, ei=None, ej=None):
                 res.append(prove('inverse/%d/X*M=I[%d,%d,%d]' % (n, pi, i, j), alg_assumptions(r.st), xm == (1 if i == j else 0), 60000 if GTIER['t'] == 'quick' else 300000, mv, key='C05/inverse/XM=I', sample=(n == 2 and pi == 0 and i == 0 and j == 0), tactic='nra'))
                 if n <= 2 or GTIER['t'] == 'thorough':
                     res.append(prove('inverse/%d/M*X=I[%d,%d,%d]' % (n, pi, i, j), alg_assumptions(r.st), mx == (1 if i == j else 0), 60000 if n <= 2 else 300000, mv, key='C05/inverse/MX=I', tactic='nra'))
-        if (ei, ej) == (0, 0): res += divisor_obligations('inverse/%d/p%d' % (n, pi), r.st, model_vars=mv, key='C05/inverse/division-by-zero')
+        if (ei, ej) == (0, 0):
+            res += divisor_obligations('inverse/%d/p%d' % (n, pi), r.st, model_vars=mv, key='C05/inverse/division-by-zero')
+            # growth control of partial pivoting (the mechanism behind the kappa*n*eps accuracy clause): the multiplier of every row BELOW the pivot is at most 1 in magnitude.
+            # Gauss-Jordan order of the ratio divisions: for pivot i, rows j = 0..n-1 (j != i); afterwards n*n normalisation divisions.
+            divs = [e for e in r.st.events if e[0] == 'div' and len(e) > 3]
+            order = [(i, j) for i in range(n) for j in range(n) if j != i]
+            if len(divs) == len(order) + n * n:
+                for (i, j), e in zip(order, divs):
+                    if j > i:
+                        res.append(prove('inverse/%d/multiplier-bounded[%d,pivot%d,row%d]' % (n, pi, i, j), r.pc, z3.If(toR(e[3]) >= 0, toR(e[3]), -toR(e[3])) <= z3.If(e[1] >= 0, e[1], -e[1]), 60000, mv, key='C05/inverse/multiplier-bounded', tactic='nra'))
+            else: res.append(ob('inverse/%d/multiplier-bounded[%d]' % (n, pi), 'undecided', detail='elimination performed %d divisions, expected %d: cannot map them to (pivot,row)' % (len(divs), len(order) + n * n)))
     if nret == 0: res.append(ob('inverse/%d/reach' % n, 'broken', detail='no returning path'))
     return res
 
@@ -143,6 +153,11 @@ def replay(ctx, o):
     if '_want' in m and isinstance(m['_want'], list):
         w = q2f(m['_want']); g = out[m['_k']]
         return abs(g - w) > 1e-9 * max(abs(g), abs(w), 1e-300), 'native result %r, definition %r' % (g, w)
+    if key == 'C05/inverse/multiplier-bounded':
+        r2 = native_la(ctx, 62, A, read_globals=('libphysica_verif_inverse_max_multiplier',))
+        if r2['status'] != 'ok': return False, 'native Inverse did not return'
+        mx = r2['globals']['libphysica_verif_inverse_max_multiplier']
+        return mx > 1.0 + 1e-12, 'native Inverse of %s applied a below-pivot multiplier of magnitude %r (hook libphysica_verif_inverse_max_multiplier); partial pivoting bounds it by 1' % (A, mx)
     if key in ('C05/inverse/XM=I', 'C05/inverse/MX=I', 'C05/inverse/singular-rejected'):
         if key == 'C05/inverse/singular-rejected': return det_exact() == 0, 'native Inverse returned %s for a matrix with exact determinant %s' % (out, det_exact())
         X = [out[i * n:(i + 1) * n] for i in range(n)]; worst = 0.0
